@@ -291,6 +291,7 @@ impl Acc {
     }
     pub fn violate(&mut self, item: u64, clause: &str, signature: &str, detail: Value) {
         self.count(&format!("violations_{}", clause));
+        self.count(&format!("violation_signature_{}", signature));
         if self.violations.len() < 64 {
             self.violations.push(Violation {
                 clause: clause.to_string(),
